@@ -7,6 +7,7 @@ import (
 	"os"
 	"os/exec"
 	"path/filepath"
+	"runtime"
 	"strings"
 	"sync"
 	"time"
@@ -303,6 +304,28 @@ func (eng *Engine) solve(o *Obligation, timeoutMs int, all bool) {
 			return
 		}
 	}
+	if !all && !eng.updatingLedger && eng.provedBefore[o.Group] {
+		// This obligation was discharged on the unchanged tree and now has no
+		// definitive answer even with the larger budget. Either the code changed,
+		// or the machine is so busy that the solvers starve. Tell the two apart
+		// before raising an alarm: one obligation at a time, after the load has
+		// had a chance to drop, with six times the budget (at most four times
+		// per run, so a really broken function costs minutes, not hours).
+		eng.quietMu.Lock()
+		if eng.quietLeft > 0 {
+			eng.quietLeft--
+			waitForQuiet(45 * time.Second)
+			for k := range o.Answers {
+				delete(o.Answers, k)
+			}
+			if st, sv, ms := race(full, solvers, 6*timeoutMs, "", "/quiet"); st != "" {
+				o.Status, o.Solver, o.TimeMs = st, sv, ms
+				eng.quietMu.Unlock()
+				return
+			}
+		}
+		eng.quietMu.Unlock()
+	}
 	o.Status = "unknown"
 	for _, s := range o.Answers {
 		if s == "error" {
@@ -420,4 +443,21 @@ func (eng *Engine) getModel(o *Obligation, timeoutMs int) string {
 		}
 	}
 	return ""
+}
+
+// waitForQuiet waits (up to max) for the 1-minute load average to fall below
+// the number of CPUs.
+func waitForQuiet(max time.Duration) {
+	deadline := time.Now().Add(max)
+	for time.Now().Before(deadline) {
+		data, err := os.ReadFile("/proc/loadavg")
+		if err != nil {
+			return
+		}
+		var l1 float64
+		if _, err := fmt.Sscanf(string(data), "%f", &l1); err != nil || l1 < float64(runtime.NumCPU()) {
+			return
+		}
+		time.Sleep(3 * time.Second)
+	}
 }
